@@ -410,7 +410,9 @@ def main():
                      "kind_free_text": "Lean 4 theorems about a hand-written executable model (lean/), tied to /repo on every run by a differential "
                                        "correspondence check: Rust harness (harness/) vs compiled model driver (mcdrv)"}],
         "checks": checks,
-        "notes": "See DESIGN.md. known_findings.json lists genuine defects (fixed: commits in /repo, and recorded known findings).",
+        "notes": "See DESIGN.md. known_findings.json lists genuine defects (fixed: commits in /repo, and recorded known findings). "
+                 "Every correspondence stream whose binary is hcore / hio / hserde runs on two builds of the harness against /repo: optimised without and with debug assertions "
+                 "(both with overflow checks); the Lean model's answers are computed once per stream.",
         "not_applicable": na,
     }
     json.dump(m, open(os.path.join(ROOT, "MANIFEST.json"), "w"), indent=1)
